@@ -9,7 +9,7 @@ import re
 
 from .core import op_place, op_local, callee_name, last_seg, norm_path, walk_expr
 from .report import RuleResult, Violation
-from .guard import (Obl, dom_atoms, call_atom, has_call, agg_sites, calls_named, named_roots, roots_named, reach,
+from .guard import (Obl, dom_atoms, call_atom, has_call, agg_sites, calls_named, named_roots, roots_named, reach, derived_locals,
                     return_some_sites)
 from .tag import leaves, strip_casts
 from .table import Walk, FreeWalk, Unknown, deref
@@ -168,6 +168,13 @@ def close_only_popped(facts):
             n += 1
             base = proj_base(b.expr(t["args"][1], 12))
             ok = isinstance(base, tuple) and base[0] == "call" and last_seg(base[1]["path"]) == "pop" and "BinaryHeap" in norm_path(base[1]["path"])
+            if not ok:
+                # the popped element may be re-tupled and bound to names first: `let (score, node) = match heap.pop() { Some(MinScored(s, n)) => (s, n), .. }`
+                pops = [tp["dest"]["l"] for _, tp in b.calls() if last_seg(tp["f"]["path"]) == "pop" and "BinaryHeap" in norm_path(tp["f"]["path"])]
+                dl = derived_locals(b, pops)
+                al = op_local(t["args"][1])
+                roots = {x[1] for x in named_roots(b, t["args"][1]) if x[0] == "local"} | ({al} if al is not None else set())
+                ok = bool(roots) and roots <= dl
             o.check(b, "visit#%d" % n, t["line"], ok, "closes the popped node",
                     "a node that was not popped from the heap is put into the closed set: its tentative score is treated as final, later cheaper "
                     "relaxations of it are discarded (is_visited) and every node behind it gets a cost that is too large")
